@@ -980,7 +980,40 @@ class VoidGen(Gen):
         self.locals = [dict((n, (t, False)) for n, t in params)]
         self.hidden = set()
         self.nlocal = 0
-        return self.stmts(0, top=True)
+        out = self.stmts(0, top=True)
+        if self.rng.random() < 0.2 and not any(s.k == "return" for s in out):
+            out += self.shadow_in_switch_then_use()
+        return out
+
+    def shadow_in_switch_then_use(self):
+        """A variable (handler parameter or let) that a case clause of a switch re-declares, read AFTER the switch: the
+        declaration is scoped to the switch body, so the read denotes the outer variable."""
+        rng = self.rng
+        outer = [(n, lt) for n, (lt, c) in self.locals[0].items() if lt in (INT, STR, BOOL) and n not in self.hidden]
+        out = []
+        if outer and rng.random() < 0.7:
+            name, lt = rng.choice(outer)
+        else:
+            lt = rng.choice((INT, STR, BOOL))
+            name = self.fresh()
+            out.append(N("let", VOID, (self.expr(lt, 2),), v=(name, lt, False, False)))
+            self.locals[0][name] = (lt, False)
+        st = rng.choice((INT, BOOL, MODE))
+        subject = self.expr(st, 2)
+        self.hidden.add(name)
+        inner_init = self.expr(lt, 2)          # must not read the name being declared
+        self.hidden.discard(name)
+        clause = [N("let", VOID, (inner_init,), v=(name, lt, False, False)),
+                  N("log", VOID, (N("local", lt, v=name),), v=rng.choice(LOG_LEVELS))]
+        if rng.random() < 0.6:
+            clause.append(N("break", VOID))
+        labels = [self.lit(st)]
+        dpos = rng.choice((None, 0, 1))
+        bodies = [clause] if dpos is None else ([[], clause] if dpos == 0 else [clause, []])
+        out.append(N("switch", VOID, (subject, labels, dpos, bodies)))
+        out.append(N("log", VOID, (N("local", lt, v=name),), v=rng.choice(LOG_LEVELS)))
+        self.feat("void:shadow-in-switch-then-use")
+        return out
 
     def stmts(self, depth, top=False, in_switch=False):
         rng = self.rng
